@@ -71,6 +71,10 @@ def run_checks(patch, props, tier):
     rc, o, e = sh(["git", "-C", REPO, "apply", patch])
     if rc:
         return {"error": "git apply in /repo failed: " + e[-300:]}
+    saved = {}
+    for p in props:                      # evidence written while a seeded change is applied must not replace the real evidence
+        ev = os.path.join(VERIF, "evidence", p + ".json")
+        saved[p] = open(ev).read() if os.path.exists(ev) else None
     try:
         for p in props:
             t0 = time.time()
@@ -86,6 +90,11 @@ def run_checks(patch, props, tier):
             out[p] = entry
     finally:
         sh(["git", "-C", REPO, "checkout", "--", "."])
+        for p, txt in saved.items():
+            if txt is not None:
+                open(os.path.join(VERIF, "evidence", p + ".json"), "w").write(txt)
+        # bring the generated Lean files back in line with the restored source
+        sh([PY, os.path.join(VERIF, "tools", "translate", "gen.py"), "--repo", REPO])
     return out
 
 
